@@ -210,3 +210,13 @@ Fixpoint cache_find_str (c : cache) (k : name) : option (N * N) :=
   | [] => None
   | e :: r => if bytes_eqb (name_string (ce_key e)) (name_string k) then Some (ce_off e, ce_depth e) else cache_find_str r k
   end.
+
+(* TrimSuffix with the case folding left open: Go uses bytes.ToLower, which lower-cases ASCII letters only when
+   every byte is ASCII and otherwise maps the string rune by rune (UTF-8 aware; invalid bytes become U+FFFD).
+   `trim_suffix` above is the instance with the ASCII folding `lower`. *)
+Definition trim_suffix_gen (lw : bytes -> bytes) (n suffix : name) : option name :=
+  if (length n <? length suffix)%nat then None
+  else let split := (length n - length suffix)%nat in
+       if name_eqb (map lw (skipn split n)) (map lw suffix) then Some (firstn split n) else None.
+Definition ascii_label (l : label) : bool := forallb (fun c => c <? 128) l.
+Definition ascii_name (n : name) : bool := forallb ascii_label n.
